@@ -162,6 +162,9 @@ type scenario struct {
 
 func treeFor(seed int64, split, run string) coreh.Tree {
 	t := coreh.Tree{}
+	if gen.Rand(seed, "empty/"+split+"/"+run).Intn(5) == 0 {
+		return t // a run that finds nothing to upload (empty source, filter without match) still completes its split
+	}
 	for _, pth := range []string{"shared/a", "shared/b", "only-" + split} {
 		t[pth] = gen.Bytes(seed, split+"/"+run+"/"+pth, 40+len(run))
 	}
